@@ -301,6 +301,16 @@ func (t *c11Tree) scenarios(tier string) []*Scen {
 				FakeTxOf: of, Fault: "txs-first"})
 		}
 	}
+	// a burst of valid blocks relayed before they are announced (each wakes the post-processor up at once) to a node whose
+	// store is slow: the wake-up signals pile up behind the post-processor
+	{
+		var push []string
+		for h := K + 1; h <= small; h++ {
+			push = append(push, fmt.Sprintf("tree:%d", t.idx[t.main[h]]))
+		}
+		add(&Scen{Name: "fake-unannounced-burst-slow-store", Kind: "fake", Shape: "prefix+burst+slow-store", B: seq(t, K), FakeChain: seq(t, small), Ref: seq(t, small),
+			FakePush: push, FakeFirst: t.idx[t.main[K]], SlowStoreMs: 40, Fault: "unsolicited", TimeoutMs: 40000})
+	}
 	inv := map[string]string{}
 	names := []string{"bad-pow", "diff+1", "bad-sig-tx"}
 	for i, nm := range names {
